@@ -109,12 +109,27 @@ type smpRig struct {
 
 // smpModes: the ways an entry reaches the sampler. The sampling rule is a property of the core, so every one of
 // them must show the same decisions.
-var smpModes = []string{"core", "logger", "sugar-template", "tee-after-accepting-core", "level-lowered-after-construction", "sugar-ln", "tee-through-logger", "sugar-w"}
+var smpModes = []string{"core", "logger", "sugar-template", "tee-after-accepting-core", "level-lowered-after-construction", "sugar-ln", "tee-through-logger", "sugar-w", "logger-terminal-levels"}
+
+// in the "logger-terminal-levels" mode the two enabled levels are DPanic and Panic (with a panic hook that returns):
+// the sampling rule knows no exception for entries that would end the program
+var smpTermLevels = map[string]zapcore.Level{"on": zapcore.DPanicLevel, "on2": zapcore.PanicLevel, "off": zapcore.DebugLevel, "oor": zapcore.Level(42)}
+
+type smpNoopHook struct{}
+
+func (smpNoopHook) OnWrite(*zapcore.CheckedEntry, []zapcore.Field) {}
 
 var smpMinLevels = map[string]zapcore.Level{"off": zapcore.DebugLevel, "on": zapcore.InfoLevel, "on2": zapcore.WarnLevel, "none": zapcore.ErrorLevel}
 var smpRank = map[string]int{"off": 0, "on": 1, "on2": 2, "none": 3, "oor": 9}
 
-func (r *smpRig) setMin(m string) { r.min = m; r.al.SetLevel(smpMinLevels[m]) }
+func (r *smpRig) setMin(m string) {
+	r.min = m
+	if smpModes[r.mode] == "logger-terminal-levels" {
+		r.al.SetLevel(map[string]zapcore.Level{"off": zapcore.DebugLevel, "on": zapcore.DPanicLevel, "on2": zapcore.PanicLevel, "none": zapcore.FatalLevel}[m])
+		return
+	}
+	r.al.SetLevel(smpMinLevels[m])
+}
 func (r *smpRig) enabled(lvl string) bool { return smpRank[lvl] >= smpRank[r.min] }
 
 type smpHookCall struct {
@@ -168,11 +183,17 @@ func (c smpClock) Now() time.Time                       { return c.t }
 func (c smpClock) NewTicker(d time.Duration) *time.Ticker { return time.NewTicker(d) }
 
 func (r *smpRig) log(e smpEnt, msgs map[string]string, tag string) {
-	if m := smpModes[r.mode]; r.viaLogger || m == "tee-through-logger" || strings.HasPrefix(m, "sugar") {
+	if m := smpModes[r.mode]; r.viaLogger || m == "tee-through-logger" || strings.HasPrefix(m, "sugar") || m == "logger-terminal-levels" {
 		// through the zap.Logger front end (which stamps the entry from its clock before the core sees it)
 		lg := zap.New(r.cores[e.Core], zap.WithClock(smpClock{time.Unix(0, smpBase+int64(e.T)*smpUnit)})).Named(tag)
 		msg := msgs[e.Msg]
 		switch m {
+		case "logger-terminal-levels":
+			lg = lg.WithOptions(zap.WithPanicHook(smpNoopHook{}))
+			if ce := lg.Check(smpTermLevels[e.Lvl], msg); ce != nil {
+				ce.Write()
+			}
+			return
 		case "sugar-template":
 			// the message the core sees is the rendered one, whatever the template was
 			h := len(msg) / 2
